@@ -295,6 +295,11 @@ func (vm *Type) Run(retResult bool) (value.Type, error) {
 			b, ok := src0.ToBool()
 
 			if !ok {
+				// the same classes the ! operator reports, so that a negation
+				// folded into the jump fails like the negation itself
+				if src0.IsNil() {
+					return vm.dumpStack(ctxp, ip, value.ErrNil, src0)
+				}
 				return vm.dumpStack(ctxp, ip, value.ErrType, src0)
 			}
 			if (opCode == bytecode.JMPF && !b) || (opCode == bytecode.JMPT && b) {
